@@ -1029,3 +1029,44 @@ Proof.
   intro V. destruct (private_batch_template_check t) as [[]|c] eqn:E; [|exists c; reflexivity].
   apply private_batch_template_ok_iff in E. destruct E as (_ & _ & _ & V'). congruence.
 Qed.
+
+(* ------------------------------------------------------------------------------------------------ *)
+(** * Exactness: commit admits exactly (policy) /\ (the circuit can prove the padded batch) *)
+
+Lemma private_accept_iff n cs t : dummy_sentinel t ->
+  (private_commit_preflight n cs = Ok tt <->
+   0 < zlen cs <= n /\
+   (forall c, In c cs -> zlen (c_pis c) = PR_LEAF_PI_LEN /\ c_ok c = true) /\
+   (exists c, In c cs /\ is_real_pb (c_pis c) = true) /\
+   priv_compat (padded n (map c_pis cs) t) = true).
+Proof.
+  intro Dt. split.
+  - intro H. pose proof (private_accept_compat_spec n cs t H Dt) as CS.
+    apply private_preflight_ok_iff in H. destruct H as (R & HC & (_ & _ & _ & (m & Im & Rm)) & _).
+    split; [exact R|]. split; [intros c I; destruct (HC c I) as (L & V & _); auto|].
+    split; [|apply priv_compat_iff; exact CS].
+    apply in_map_iff in Im. destruct Im as (c & <- & I). exists c. auto.
+  - intros (R & HC & (c0 & I0 & R0) & PC). apply priv_compat_iff in PC.
+    destruct (compat_spec_prefix _ _ _ PC Dt) as (PA & PB & PN & PS). destruct PC as ((A & HA) & _). destruct Dt as [Dt At].
+    apply private_preflight_ok_iff. split; [exact R|]. split; [|split; [|exact PS]].
+    + intros c I. destruct (HC c I) as (L & V). split; [exact L|]. split; [exact V|]. intro Lt.
+      assert (In (c_pis c) (padded n (map c_pis cs) t)) as I1 by (unfold padded; apply in_or_app; left; apply in_map; exact I).
+      assert (In t (padded n (map c_pis cs) t)) as I2.
+      { unfold padded. apply in_or_app. right. rewrite zlen_map. destruct (Z.to_nat (n - zlen cs)) eqn:E; [lia|]. left. reflexivity. }
+      rewrite (HA _ I1), <- (HA _ I2). exact At.
+    + split; [exact PA|]. split; [exact PB|]. split; [exact PN|]. exists (c_pis c0). split; [apply in_map; exact I0|exact R0].
+Qed.
+
+Lemma public_accept_iff m pi_len cs t : is_dummy_inner t = true ->
+  (public_preflight m pi_len cs = Ok tt <->
+   0 < zlen cs <= m /\
+   (forall c, In c cs -> zlen (c_pis c) = pi_len /\ c_ok c = true) /\
+   (exists c, In c cs /\ is_real_inner (c_pis c) = true) /\
+   pub_compat (padded m (map c_pis cs) t) = true).
+Proof.
+  intro Dt. rewrite public_preflight_ok_iff, pub_compat_iff, (padded_pub_spec m (map c_pis cs) t Dt). split.
+  - intros (R & HC & PS & (x & Ix & Rx)). split; [exact R|]. split; [exact HC|]. split; [|exact PS].
+    apply in_map_iff in Ix. destruct Ix as (c & <- & I). exists c. auto.
+  - intros (R & HC & (c & I & Rc) & PS). split; [exact R|]. split; [exact HC|]. split; [exact PS|].
+    exists (c_pis c). split; [apply in_map; exact I|exact Rc].
+Qed.
